@@ -38,14 +38,15 @@ CName(x) == IF T[x].owner = 0 THEN <<0, x>> ELSE <<T[x].owner, CHOOSE j \in DOMA
 CRec(x) == [tracked |-> T[x].tracked, spent |-> T[x].spent, wired |-> T[x].wired, hasGrad |-> T[x].hasGrad,
             args |-> [k \in DOMAIN T[x].args |-> CName(T[x].args[k])]]
 CFoot(S) == {<<e[1], CName(e[2])>> : e \in S}
-View == <<prog, pc, [x \in 1..5 |-> CRec(x)], [g \in 1..NG |-> [j \in DOMAIN loc[g] |-> CRec(loc[g][j])]],
+View == <<prog, pc, [x \in 1..6 |-> CRec(x)], [g \in 1..NG |-> [j \in DOMAIN loc[g] |-> CRec(loc[g][j])]],
           [g \in 1..NG |-> [r |-> CFoot(fl[g].r), w |-> CFoot(fl[g].w), on |-> fl[g].on]]>>
 
 G == 1..NG
 Ids == 1..Len(T)
 Shared == [tracked |-> TRUE, spent |-> FALSE, wired |-> FALSE, args |-> <<>>, hasGrad |-> FALSE, owner |-> 0]
 InitHeap == <<Shared, [Shared EXCEPT !.tracked = FALSE], [Shared EXCEPT !.tracked = FALSE], [Shared EXCEPT !.tracked = FALSE],
-             [Shared EXCEPT !.spent = TRUE, !.hasGrad = TRUE]>>     \* 1: shared tracked parameter, 2: shared untracked tensor (from a constructor), 3: shared untracked RESULT of an operation, never used before, 4: shared untracked result of a COMPARISON, never used before, 5: a tracked leaf that was back-propagated (two contributions) before the goroutines start; its gradient has not been read yet
+             [Shared EXCEPT !.spent = TRUE, !.hasGrad = TRUE],
+             [Shared EXCEPT !.wired = TRUE, !.args = <<1>>]>>     \* 1: shared tracked parameter, 2: shared untracked tensor (from a constructor), 3: shared untracked RESULT of an operation, never used before, 4: shared untracked result of a COMPARISON, never used before, 5: a tracked leaf that was back-propagated (two contributions) before the goroutines start; its gradient has not been read yet, 6: a shared tracked INTERIOR tensor (computed from the parameter before the goroutines start; forward use only, as the proviso demands)
 
 (* a slot <<"s", i>> is shared tensor i; <<"l", j>> is the j-th tensor this goroutine created *)
 Resolve(g, slot) == IF slot[1] = "s" THEN slot[2] ELSE loc[g][slot[2]]
@@ -158,6 +159,6 @@ SeqView(p) == LET s == SeqRun(p, 1, InitHeap, <<>>)
 Finished == \A g \in G : ~Running(g)
 Deterministic == Finished => \A g \in G : LocalView(g) = SeqView(prog[g])
 (* the shared tensors are never written under the proviso *)
-SharedUntouched == Proviso => T[1] = InitHeap[1] /\ T[2] = InitHeap[2] /\ T[3] = InitHeap[3] /\ T[4] = InitHeap[4] /\ T[5] = InitHeap[5]
+SharedUntouched == Proviso => T[1] = InitHeap[1] /\ T[2] = InitHeap[2] /\ T[3] = InitHeap[3] /\ T[4] = InitHeap[4] /\ T[5] = InitHeap[5] /\ T[6] = InitHeap[6]
 
 =============================================================================
